@@ -275,6 +275,10 @@ func genObj(repo string) (string, error) {
 		{"gen_mapped_Open", po, "mappedStore", "Open"},
 		{"gen_mapped_Create", po, "mappedStore", "Create"},
 		{"gen_mapped_Has", po, "mappedStore", "Has"},
+		{"gen_NewMapped", po, "", "NewMapped"},
+		{"gen_NewPsql", po, "", "NewPsql"},
+		{"gen_ReadJSON", po, "", "ReadJSON"},
+		{"gen_CreateJSON", po, "", "CreateJSON"},
 		{"gen_Hash", ph, "", "Hash"},
 		{"gen_HashReader", ph, "", "HashReader"},
 		{"gen_NewCheckReader", ph, "", "NewCheckReader"},
